@@ -663,6 +663,115 @@ Section MeshProofs.
     - destruct incl; [exact Hrk | reflexivity].
   Qed.
 
+  (* ---------- second generation: serialising the parsed asset again gives the same bytes ---------- *)
+
+  Lemma upd_idem t (kv : key * hval X) : upd t (upd t kv) = upd t kv.
+  Proof.
+    destruct kv as [k v]. unfold upd. cbn [fst snd]. destruct v as [o s e|x]; [|reflexivity].
+    destruct (lookup k t) as [[o' s']|] eqn:E; cbn [fst snd]; rewrite E; reflexivity.
+  Qed.
+
+  Lemma apply_table_idem t (h : hdr) : apply_table t (apply_table t h) = apply_table t h.
+  Proof. unfold apply_table. rewrite map_map. apply map_ext. intros kv. apply upd_idem. Qed.
+
+  Lemma segk_apply_table t (h : hdr) k : segk (apply_table t h) k = segk h k.
+  Proof.
+    unfold segk. rewrite lookup_apply_table. destruct (lookup k h) as [[o s e|x]|]; cbn [option_map]; try reflexivity.
+    unfold upd. cbn [fst snd]. destruct (lookup k t) as [[o' s']|]; reflexivity.
+  Qed.
+
+  Lemma blobs_of_ext allow (m1 m2 : msh) (h1 h2 : hdr) : forall ks,
+    (forall k, In k ks -> segk h1 k = segk h2 k) ->
+    (forall k, In k ks -> segk h1 k = true ->
+               option_map (blob_of deflate k) (seg_value m1 k) = option_map (blob_of deflate k) (seg_value m2 k)) ->
+    blobs_of allow m1 h1 ks = blobs_of allow m2 h2 ks.
+  Proof.
+    induction ks as [|k ks IH]; intros Hs Hv; [reflexivity|].
+    assert (IH' : blobs_of allow m1 h1 ks = blobs_of allow m2 h2 ks).
+    { apply IH; intros k' Hk'; [apply Hs | apply Hv]; right; exact Hk'. }
+    cbn [blobs_of]. pose proof (Hs k (or_introl eq_refl)) as Hsk. pose proof (Hv k (or_introl eq_refl)) as Hvk.
+    unfold segk in Hsk, Hvk.
+    destruct (lookup k h1) as [[o1 s1 e1|x1]|]; destruct (lookup k h2) as [[o2 s2 e2|x2]|]; try discriminate; try exact IH'.
+    specialize (Hvk eq_refl).
+    destruct (seg_value m1 k) as [v1|]; destruct (seg_value m2 k) as [v2|]; cbn [option_map] in Hvk; try discriminate.
+    - injection Hvk as Hb. rewrite Hb, IH'. reflexivity.
+    - rewrite IH'. reflexivity.
+  Qed.
+
+  Lemma kmem_in k l : kmem k l = true <-> In k l.
+  Proof.
+    unfold kmem. rewrite existsb_exists. split.
+    - intros (x & Hx & E). apply key_eqb_eq in E. subst. exact Hx.
+    - intros H. exists k. split; [exact H | apply key_eqb_refl].
+  Qed.
+
+  Lemma lookup_map_parsed k (sg : list (key * S)) :
+    lookup k (map (fun ks => (fst ks, SParsed (snd ks))) sg) = option_map SParsed (lookup k sg).
+  Proof.
+    induction sg as [|[k' s] sg IH]; cbn [map lookup fst snd option_map]; [reflexivity|].
+    destruct (key_eqb k k'); [reflexivity | exact IH].
+  Qed.
+
+  Lemma seg_entries_keys (h : hdr) k : In k (seg_entries h) -> In k (hkeys h).
+  Proof. intros H. apply seg_entries_in in H as (o & s & e & Hin). apply (in_map fst) in Hin. exact Hin. Qed.
+
+  Theorem mesh_fixed_point (m : msh) incl bs : NoDup (hkeys (m_header m)) -> decoded m ->
+    write_mesh rk deflate enc_hdr false m = Some bs ->
+    exists p, parse_mesh inflate dec_hdr false incl bs = Some p /\
+              write_mesh rk deflate enc_hdr false (mesh_of_parsed p) = Some bs.
+  Proof.
+    intros Hnd Hdec Hw.
+    destruct (mesh_rt m incl bs Hnd Hw) as (h' & body & bl & Hl & -> & Hb & Hstrip & Hp).
+    assert (Hord : NoDup (sort_keys rk (hkeys (m_header m))))
+      by (eapply Permutation_NoDup; [symmetry; apply sort_keys_perm | exact Hnd]).
+    pose proof (blobs_nodup false m _ _ _ Hord Hb) as Hndb.
+    assert (Hval : forall k b, In (k, b) bl -> exists s, seg_value m k = Some (SParsed s) /\ b = deflate k s).
+    { intros k b Hin. destruct (blobs_vals false m _ _ _ k b Hb Hin) as (_ & _ & v & Hv & ->).
+      destruct (decoded_value m k v Hdec Hv) as (_ & s & ->). exists s. split; [exact Hv | reflexivity]. }
+    assert (Hcover : forall k, In k (seg_entries (m_header m)) -> In k (map fst bl)).
+    { intros k Hk. rewrite (blobs_keys_false m _ _ _ Hb). apply filter_In.
+      apply seg_entries_in in Hk as (o & s & e & Hin). split.
+      - eapply Permutation_in; [symmetry; apply sort_keys_perm|]. apply (in_map fst) in Hin. exact Hin.
+      - unfold segk. rewrite (in_lookup k _ _ Hnd Hin). reflexivity. }
+    destruct (inflate_all_decoded m bl Hval Hndb _ Hcover) as (sg & rw & Hi & Hsk & Hrk & Hsv & _).
+    rewrite Hi in Hp. eexists. split; [exact Hp|].
+    (* the layout the first serialisation computed *)
+    pose proof Hl as Hspec. rewrite write_layout_spec in Hspec by exact Hnd.
+    destruct (missing_headers m); [discriminate|]. rewrite Hb in Hspec. injection Hspec as Hh' Hbody.
+    set (m' := mesh_of_parsed (mkParsed h' sg (if incl then rw else []))).
+    assert (Hkeys : hkeys h' = hkeys (m_header m)) by (rewrite <- Hh'; apply apply_table_keys).
+    assert (Hnd' : NoDup (hkeys (m_header m'))) by (change (NoDup (hkeys h')); rewrite Hkeys; exact Hnd).
+    unfold write_mesh. rewrite (write_layout_spec false m' Hnd').
+    assert (Hmiss : missing_headers m' = false).
+    { unfold missing_headers. destruct (existsb _ _) eqn:E; [|reflexivity]. exfalso.
+      apply existsb_exists in E as (k & Hk & Hneg).
+      assert (Hin : In k (hkeys h')).
+      { rewrite Hkeys. apply seg_entries_keys. cbn [m' mesh_of_parsed m_segments m_raw p_segments p_raw] in Hk.
+        rewrite map_map in Hk. cbn [fst] in Hk. apply in_app_or in Hk as [Hk|Hk].
+        - rewrite <- Hsk. rewrite (map_ext _ fst) in Hk by reflexivity. exact Hk.
+        - destruct incl; [rewrite <- Hrk; exact Hk | destruct Hk]. }
+      apply kmem_in in Hin. cbn [m' mesh_of_parsed m_header p_header] in Hneg. unfold hkeys in Hin. rewrite Hin in Hneg. discriminate. }
+    rewrite Hmiss. cbn [m' mesh_of_parsed m_header p_header]. fold m'. rewrite Hkeys.
+    assert (Hsame : blobs_of false m' h' (sort_keys rk (hkeys (m_header m))) = Some bl).
+    { rewrite <- Hb. apply blobs_of_ext.
+      - intros k _. rewrite <- Hh'. apply segk_apply_table.
+      - intros k Hk Hseg. rewrite <- Hh', segk_apply_table in Hseg.
+        (* the first serialisation found a decoded segment under k; the parse put the same tree back *)
+        assert (Hkb : In k (map fst bl)).
+        { rewrite (blobs_keys_false m _ _ _ Hb). apply filter_In. split; assumption. }
+        apply in_map_iff in Hkb as ([k2 b] & Hk2 & Hinb). cbn in Hk2. subst k2.
+        destruct (Hval k b Hinb) as (s & Hsv' & _).
+        assert (Hins : In (k, s) sg).
+        { apply Hsv; [|exact Hsv']. unfold segk in Hseg.
+          destruct (lookup k (m_header m)) as [[o sz e|x]|] eqn:E; try discriminate.
+          apply seg_entries_in. exists o, sz, e. apply lookup_in, E. }
+        assert (Hlk : lookup k sg = Some s).
+        { apply in_lookup; [rewrite Hsk; apply seg_entries_nodup, Hnd | exact Hins]. }
+        unfold seg_value at 1. cbn [m' mesh_of_parsed m_segments p_segments]. rewrite lookup_map_parsed, Hlk.
+        cbn [option_map]. rewrite Hsv'. reflexivity. }
+    rewrite Hsame. rewrite <- Hh' at 1. rewrite apply_table_idem, Hh', Hbody. reflexivity.
+  Qed.
+
 End MeshProofs.
 
 (* ====================================================================================== *)
